@@ -44,9 +44,10 @@ class C09(Prop):
             "50 and 300 siblings inserted in sorted order, and a 1000-stem-deep LRU (known finding K3). non-trivial = a chain "
             "needed >= 2 calls AND the webentity had >= 2 prefixes or pages >= 2 stems below a prefix.")
     MODES = ("url", "url", "mixed")
-    LONG_BIAS = 0.15
+    LONG_BIAS = 0.25
+    BACKENDS = ("file", "file", "memory")
     WEIGHTS = {"page": 6, "pages": 3, "links": 2, "batch": 2, "again": 1, "create": 3, "delete": 1, "addprefix": 3,
-               "rmprefix": 1, "move": 1, "rule": 1, "unrule": 1, "reopen": 1}
+               "rmprefix": 1, "move": 1, "rule": 1, "unrule": 1, "reopen": 1, "clear": 1}
     QUICK = (30, 16)
     THOROUGH = (150, 36)
     ASSUMPTIONS = ["relational oracle: pages_iter + retrieve_prefix/webentity of the same index define membership and segments",
@@ -176,7 +177,7 @@ class C09(Prop):
             snaps.append(membership(case, w, co))
             if sorted(case.led.webentities().get(w, [])) != sorted(order):
                 break       # the webentity's own prefix list changed: outside the quantifier
-            if calls > sum(len(s) for s in snaps) + 5:
+            if calls > max(len(s) for s in snaps) + 5:
                 ctx.fail("endless", "%s: still not done" % label, case)
         if len(got) != len(set(got)):
             ctx.fail("repeated", "pages repeated across answers when insertions happen between calls: %r"
